@@ -497,7 +497,12 @@ class CParser:
         self._tokens.reset(mark)
 
     def _tok_coord(self, tok: Token) -> Coord:
-        return self._coord(tok.lineno, tok.column)
+        # The lexer may already be past a #line directive that follows this
+        # token (lookahead), so use the file name recorded with the token.
+        filename = getattr(tok, "filename", None)
+        if filename is None:
+            filename = self.clex.filename
+        return Coord(file=filename, line=tok.lineno, column=tok.column)
 
     def _starts_declaration(self, tok: Optional[Token] = None) -> bool:
         tok = tok or self._peek()
